@@ -92,7 +92,7 @@ def worlds(va: int, u21: int, up: int) -> bool:
                             for target in ("m1", "m2"):
                                 for la in range(4):
                                     for su in (0, 1):
-                                        w = W(m1p, VIS[va], vb, vc, u21, m2p, m2pub, target, up, la, su)
+                                        w = W(m1p, VIS[va], vb, vc, u21, m2p, m2pub, target, up, la, su, vis_ex=(2 if m1p else -2) if (la + su) % 2 else 0)
                                         msg = check_world(w)
                                         if msg:
                                             FAIL.append(msg)
